@@ -30,8 +30,10 @@ def clocks_used(case):
 
 
 def expected_gens(case):
-    """Generator each draw must use, from the script alone: the routine's own seed if a `seed` action
-    precedes the draw in its script, else the generator its creator had at the spawn action."""
+    """For every draw of every routine, from the script alone: (identity, seed) of the generator OBJECT it
+    must read.  identity = 'M' (the main thread's) or (routine, index of the `seed` action that created it);
+    a routine reads its own latest generator if a `seed` action precedes the draw in its script, else the
+    generator its creator had at the spawn / first pull.  Equal seeds in two places are two objects."""
     parent = {}
     for p, s in enumerate(case['rts']):
         for k, a in enumerate(s):
@@ -40,13 +42,13 @@ def expected_gens(case):
 
     def gen_at(r, pos):
         g = None
-        for a in case['rts'][r][:pos]:
+        for k, a in enumerate(case['rts'][r][:pos]):
             if a[0] == 'seed':
-                g = a[1]
+                g = ((r, k), str(a[1]))
         if g is not None:
             return g
         if r == 0 or r not in parent:
-            return 0
+            return ('M', 'M')
         return gen_at(*parent[r])
     exp = {}
     for r, s in enumerate(case['rts']):
@@ -66,7 +68,7 @@ class Check(c05.Check):
     N_QUICK = 150
     N_THOROUGH = 3000
     ASSUMPTIONS = c05.Check.ASSUMPTIONS + [
-        'Mersenne Twister not modelled: a draw is (generator, index); seeds in a program are distinct',
+        'Mersenne Twister not modelled: a draw is (generator object, index); the run prints the seed of the object',
         'with several clock threads the RT order across threads is the environment\'s choice: equality with '
         'NRT is proved for schedules that serve the threads in due order, and for single-clock programs '
         'unconditionally (multi_clock_needs_ordered_schedule shows the hypothesis is necessary)',
@@ -74,7 +76,8 @@ class Check(c05.Check):
 
     def rule(self):
         return ('C05 programs plus pause/resume/stop of other routines (and of itself: refused), Condition wait/'
-                'signal, seeds (distinct) and draws via builtins.rand, bundle sends carrying the last drawn value, '
+                'signal, seeds (incl. 0 and equal seeds in several routines) and draws via builtins.rand, nested sub-streams, '
+                'bodies that raise, bundle sends carrying the last drawn value, '
                 'yield inf; 60% single-clock (SystemClock or one TempoClock incl. tempo changes) run in RT under '
                 'arbitrary scripted lateness and required to equal the NRT trace exactly; multi-clock programs are '
                 'compared per routine; every program runs in two fresh NRT processes (byte-identical score). '
@@ -97,7 +100,7 @@ class Check(c05.Check):
             parent[i], depth[i] = p, depth[p] + 1
         interfere = single or rng.random() < 0.0
         nconds = rng.choice([0, 1, 1, 2]) if interfere else 0
-        seeds = iter(rng.sample(range(1, 90), 24))
+        seeds = iter([rng.choice([0, 0, 0, 1, 1, 2, 3, 5, 7, 11, 13, 42]) for _ in range(24)])
         rts = []
         for i in range(n):
             ny = rng.choice([1, 2, 3, 3, 4, 5, 6, 8])
@@ -120,6 +123,8 @@ class Check(c05.Check):
                 acts.insert(rng.randrange(len(acts) + 1), ['seed', next(seeds)])
             if rng.random() < 0.05:
                 acts.insert(rng.randrange(len(acts) + 1), [rng.choice(['hang', 'yinf'])])
+            if i > 0 and rng.random() < 0.08:
+                acts.insert(rng.randrange(len(acts) + 1), ['raise'])
             rts.append(acts)
         if interfere and n >= 2 and rng.random() < 0.6:
             # pause / short wait / resume of one routine by another (D12 shape), possibly twice
@@ -128,6 +133,13 @@ class Check(c05.Check):
                 ctl = parent[t] if rng.random() < 0.7 else rng.choice([q for q in range(n) if q != t])
                 k = rng.randrange(len(rts[ctl]) + 1)
                 rts[ctl][k:k] = [['pause', t], ['y', rng.choice(['0', '1/8', '1/4', '1/2'])], ['resume', t]]
+        if rng.random() < 0.5:
+            # bundles sent ahead with a long latency (odd ids), then earlier-stamped ones (even ids)
+            r = rng.randrange(n)
+            k = rng.randrange(len(rts[r]) + 1)
+            odd = [['send', 2 * rng.randrange(50) + 1] for _ in range(rng.randint(2, 3))]
+            rts[r][k:k] = odd + [['y', rng.choice(['1/4', '1/2'])], ['send', 2 * rng.randrange(50)],
+                                 ['send', 2 * rng.randrange(50) + 1]]
         if interfere and nconds and n >= 2 and rng.random() < 0.6:
             # a waiter and a later signaller on the same condition
             a, b = rng.sample(range(n), 2)
@@ -185,6 +197,11 @@ class Check(c05.Check):
     # ---- oracle -----------------------------------------------------------------------------------
     def oracle(self, case, out):
         nrt, rt = out['nrt'], out['rt']
+        if rt is not None and rt.get('skipped'):
+            rt = None
+        if rt is not None and (rt.get('error') or '').startswith('livelock'):
+            self._livelock = getattr(self, '_livelock', set()) | {common.canon(case)}
+            return {'what': 'RT: ' + rt['error'], 'signature': 'c10:rt-livelock'}
         if nrt.get('error'):
             if 'infinity' in nrt['error'] and any(a[0] == 'yinf' for s in case['rts'] for a in s):
                 return {'what': 'NRT: a routine yielding inf is re-queued at time inf (real time never wakes it '
@@ -210,18 +227,22 @@ class Check(c05.Check):
                     if g == '?':
                         return {'what': f'{mode}: routine {r} drew a value that is in none of the seeded streams',
                                 'signature': 'c10:rgen:stream'}
-                    g, i = int(g), int(i)
+                    i = int(i)
                     k = per_r.get(r, 0)
                     per_r[r] = k + 1
-                    if k < len(exp_gen[r]) and exp_gen[r][k] != g:
-                        return {'what': f'{mode}: draw #{k} of routine {r} came from generator {g}; its own seed / the '
-                                        f'generator inherited at creation is {exp_gen[r][k]}',
-                                'signature': 'c10:rgen:inherit'}
-                    if i != seen.get(g, 0):
-                        return {'what': f'{mode}: generator {g} handed out stream index {i} where {seen.get(g, 0)} was '
-                                        f'due (draws elsewhere leaked into it, or it was re-seeded)',
+                    if k >= len(exp_gen[r]):
+                        continue
+                    ident, seed = exp_gen[r][k]
+                    if seed != g:
+                        return {'what': f'{mode}: draw #{k} of routine {r} came from a generator seeded {g}; its own '
+                                        f'seed / the generator inherited at creation is seeded {seed} '
+                                        f'(M = the main thread\'s generator)', 'signature': 'c10:rgen:inherit'}
+                    if i != seen.get(ident, 0):
+                        return {'what': f'{mode}: draw #{k} of routine {r} got stream index {i} of its generator '
+                                        f'(seed {seed}, created at {ident}); {seen.get(ident, 0)} was due — the '
+                                        f'generator is shared with, or was advanced by, someone it must not be',
                                 'signature': 'c10:rgen:stream'}
-                    seen[g] = i + 1
+                    seen[ident] = i + 1
         if rt is None:
             return None
         if rt.get('error'):
@@ -234,10 +255,13 @@ class Check(c05.Check):
                 return {'what': f'single-clock program: RT and NRT traces differ at event #{k}: NRT '
                                 f'{a[k] if k < len(a) else "(end)"} vs RT {b[k] if k < len(b) else "(end)"} '
                                 f'(lateness {case["late"]})', 'signature': 'c10:rt-nrt'}
-            if nrt['bundles'] != rt['bundles']:
-                return {'what': f'single-clock program: (logical time, bundle) sequences differ: NRT score '
-                                f'{nrt["bundles"][:6]} vs RT datagrams {rt["bundles"][:6]}',
-                        'signature': 'c10:rt-nrt:bundles'}
+            def stamp(b):
+                return F(b[0]) + (F(1, 4) if b[1] % 2 == 0 else F(5, 4))
+            rt_sorted = sorted(rt['bundles'], key=stamp)        # stable: ties keep the send order
+            if nrt['bundles'] != rt_sorted:
+                return {'what': f'single-clock program: (time, bundle) sequences differ: NRT score '
+                                f'{nrt["bundles"][:8]} vs RT datagrams ordered by timetag then send order '
+                                f'{rt_sorted[:8]}', 'signature': 'c10:rt-nrt:bundles'}
         else:
             plain = not any(x[0] in ('pause', 'resume', 'stop', 'wait', 'sig', 'tempo') for s in case['rts'] for x in s)
             if plain:
